@@ -1,4 +1,4 @@
 SPECIFICATION Spec
-CONSTANTS InitCap = 2  MaxCap = 4  Gap = 1  Ids = {1, 2}  MaxPub = 5  W = {1}  Tails = {1, 2, 5}
+CONSTANTS InitCap = 2  MaxCap = 4  Gap = 1  Ids = {1, 2}  MaxPub = 5  W = {1}  Tails = {1, 2, 5}  BBs = {FALSE, TRUE}
 INVARIANTS RingCorrect NoBadDelivery ErroredOnlyIfLagged QuietComplete RecentBookmarksAccepted AcceptedBookmarkRetained
 CHECK_DEADLOCK FALSE
